@@ -273,7 +273,14 @@ func scenarioMachine(c *hlib.RunCtx) *hlib.Violation {
 	simrt.Attach(s)
 	defer simrt.Detach()
 
-	m := &machine{c: c, s: s, t: t, prop: prop, tele: filepath.Join(c.Dir, "tele"),
+	// The telemetry directory's own path may contain a date (a dated backup or
+	// home directory), possibly the date of a week that will be reported.
+	teleName := "tele"
+	if t.Bool(1, 4) {
+		teleName = "tele-" + refcal.Date(day+t.Draw(30))
+		s.Probe("dated-directory-name")
+	}
+	m := &machine{c: c, s: s, t: t, prop: prop, tele: filepath.Join(c.Dir, teleName),
 		cfgByTask: map[*simrt.Task]*cfgVersion{}, dlFail: map[*simrt.Task]bool{}, xByTask: map[*simrt.Task][]float64{},
 		acked: map[string][]ack{}, stored: map[string]bool{}, verdict: map[string]int{}, uploaderOf: map[*simrt.Task]int{},
 		reportMaker: map[string]*simrt.Task{}, allMakers: map[string][]*simrt.Task{}, localMaker: map[string]*simrt.Task{}, fatalStatus: map[*simrt.Task]map[string]int{}}
@@ -395,6 +402,14 @@ func scenarioMachine(c *hlib.RunCtx) *hlib.Violation {
 		}
 		if t.Bool(1, 5) { // a file that is still active
 			mgen.WriteCounterFile(m.t, m.s, m.loc, s.NowT(), 1+t.Draw(7), 0)
+		}
+		// the user leaves a file of his own in local/: a copy of a report under
+		// another name, notes, an editor's backup
+		if t.Bool(1, 6) {
+			strays := []string{"copy-local.2024-01-08.json", "backup-2024-01-08.json", "notes-2024.json", "1.json", ".json", "local-copy.json", "2024-01-08 (1).json", "x2024-01-08.json"}
+			body := `{"Week":"2024-01-08","LastWeek":"","X":0.25,"Programs":[{"Program":"secret.example/tool","Version":"v1.0.0","GoVersion":"go1.21.0","GOOS":"linux","GOARCH":"amd64","Counters":{"private/counter":7},"Stacks":{}}],"Config":"v0.1.0"}`
+			os.WriteFile(filepath.Join(m.loc, strays[t.Draw(len(strays))]), []byte(body), 0666)
+			s.Probe("stray-json-in-local")
 		}
 		// config store moves on
 		if t.Bool(1, 3) {
